@@ -4,7 +4,10 @@ import (
 	"fmt"
 	"net"
 	"net/http"
+	"runtime"
+	"strings"
 	"sync"
+	"syscall"
 	"testing"
 
 	"pgregory.net/rapid"
@@ -26,22 +29,34 @@ type CrowdScript struct {
 	Names   int    `json:"names"` // never-seen header names per request
 	Proto   string `json:"proto"`
 	Mixed   bool   `json:"mixed"` // every other client speaks HTTP/1.1
+	// Broken: further HTTP/2 connections, at the same time, on which every write of the proxy fails from the FaultAt-th
+	// on (the client's socket is gone while responses are being written); they keep sending requests. Their fate is not
+	// judged; the well-behaved clients next to them are.
+	Broken  int `json:"broken,omitempty"`
+	FaultAt int `json:"fault_at,omitempty"`
+	// Procs > 0: the case runs with that many processors. Per-processor caches (sync.Pool) hand an object from one
+	// connection to the next most reliably when there is a single one.
+	Procs int `json:"procs,omitempty"`
 }
 
 var colCrowd = vstat.New("C10", "c10.crowd")
 
 func TestCrowd(t *testing.T) {
 	rig.Certs()
-	colCrowd.Mandatory("clients:6+", "names:20+")
+	colCrowd.Mandatory("clients:6+", "names:20+", "connections-whose-writes-fail-next-to-the-crowd")
 	vstat.Run(t, vstat.Spec[CrowdScript]{Col: colCrowd, Quick: 120, Thorough: 3000, ScheduleDependent: true,
 		Gen: func(t *rapid.T) CrowdScript {
 			return CrowdScript{Clients: rapid.IntRange(2, 12).Draw(t, "n"), NReq: rapid.IntRange(2, 10).Draw(t, "nreq"),
-				Names: rapid.SampledFrom([]int{1, 5, 20, 40}).Draw(t, "names"), Proto: "h2", Mixed: rapid.IntRange(0, 3).Draw(t, "mixed") == 0}
+				Names: rapid.SampledFrom([]int{1, 5, 20, 40}).Draw(t, "names"), Proto: "h2", Mixed: rapid.IntRange(0, 3).Draw(t, "mixed") == 0,
+				Broken: rapid.SampledFrom([]int{0, 0, 1, 2, 4}).Draw(t, "broken"), FaultAt: rapid.IntRange(4, 16).Draw(t, "faultAt"), Procs: rapid.SampledFrom([]int{0, 1, 1, 2}).Draw(t, "procs")}
 		},
 		Exec: func(s CrowdScript) *vstat.Violation {
 			var mu sync.Mutex
 			var fails []string
 			var reqs []*rig.Recorded
+			if s.Procs > 0 {
+				defer runtime.GOMAXPROCS(runtime.GOMAXPROCS(s.Procs))
+			}
 			msg := rig.Bubble(t, func() {
 				p := rig.StartProxy(rig.ProxyOpts{IdleTimeout: 60e9, TLSHandshakeTimeout: 10e9})
 				defer p.Stop()
@@ -60,6 +75,28 @@ func TestCrowd(t *testing.T) {
 				}
 				start := make(chan struct{})
 				var wg sync.WaitGroup
+				var broken []*rig.ClientConn
+				for b := 0; b < s.Broken; b++ {
+					hooks := &rig.Hooks{OnOp: func(kind string, idx int) error {
+						if kind == "Write" && idx >= s.FaultAt {
+							return syscall.EPIPE
+						}
+						return nil
+					}}
+					bc, err := rig.ConnectHooks(p, []string{"h2"}, &net.TCPAddr{IP: net.IPv4(203, 0, 113, byte(b+1)), Port: 31000 + b}, hooks)
+					if err != nil {
+						continue // the fault fell into the handshake
+					}
+					broken = append(broken, bc)
+					wg.Add(1)
+					go func(b int, bc *rig.ClientConn) {
+						defer wg.Done()
+						<-start
+						for j := 0; j < s.NReq+4; j++ {
+							bc.Do(rig.ReqSpec{Method: "GET", Path: fmt.Sprintf("/broken/%d/%d", b, j), Authority: "example.com", Headers: [][2]string{{"user-agent", "x"}}})
+						}
+					}(b, bc)
+				}
 				for i := range ccs {
 					wg.Add(1)
 					go func(i int, cc *rig.ClientConn) {
@@ -83,8 +120,12 @@ func TestCrowd(t *testing.T) {
 				close(start)
 				wg.Wait()
 				rig.Wait()
-				reqs = p.Backend.Requests()
-				for _, cc := range ccs {
+				for _, r := range p.Backend.Requests() {
+					if !strings.HasPrefix(r.RequestURI, "/broken/") {
+						reqs = append(reqs, r)
+					}
+				}
+				for _, cc := range append(ccs, broken...) {
 					cc.Close()
 				}
 			})
@@ -120,6 +161,9 @@ func TestCrowd(t *testing.T) {
 			}
 			if s.Mixed {
 				cl = append(cl, "mixed-protocols")
+			}
+			if s.Broken > 0 {
+				cl = append(cl, "connections-whose-writes-fail-next-to-the-crowd", fmt.Sprintf("broken-next-to-crowd:procs=%d", s.Procs))
 			}
 			colCrowd.Case(fmt.Sprintf("%+v", s), s.Clients >= 3 && s.Names >= 5, s, cl...)
 			return nil
